@@ -20,7 +20,7 @@ func init() {
 	fw.Register(&fw.Check{
 		ID:    "C16",
 		Level: "exploration",
-		Rule: "case = (initial IMSI of 14/15 digits with 2- or 3-digit MNC, population N in {1,2,3,10,100,1000,10000} that the MSIN can accommodate, K, OP, OPc); two cases in five place the initial MSIN so that the population walks across a 10^j carry, j cycling through 1..MSIN length-1 by case index; " +
+		Rule: "case = (initial IMSI of 14/15 digits with 2- or 3-digit MNC, population N in {1,2,3,10,100,1000,10000} that the MSIN can accommodate, K, OP, OPc); two cases in five place the initial MSIN so that the population walks across a 10^j carry, j cycling through 1..MSIN length-1 by case index; one case in six makes the numeric value of the IMSI walk across a multiple of 2^31 / 2^32 / 2^33 / 2^40 / 2^48 inside a population of up to 10000; " +
 			"every case creates N UEs with stgutg.CreateUE and checks pairwise distinct SUPI / RAN-UE-NGAP-ID, PLMN prefix and digit count, credentials; " +
 			"one case in eight instead sweeps all 16 (NEA,NIA) pairs through NewRanUeContext+GetUESecurityCapability. distinct = hash(IMSI,N); non-trivial = N>=2 or capability sweep",
 		Assumptions: []string{"SUPI text form is imsi-<digits>", "population is bounded by 10 000 as the property says"},
@@ -60,6 +60,14 @@ func runC16(c *fw.Case) (o fw.Outcome) {
 		n = int(limit)
 	}
 	var msin int64
+	binaryBoundary := false
+	if c.Idx%6 == 5 && msinLen >= 9 { // the NUMERIC value of the IMSI walks across a multiple of 2^p (32-bit / 31-bit / float53 truncation)
+		n = pick(r, 2, 100, 10000, 10000, 10000)
+		if int64(n) > limit {
+			n = int(limit)
+		}
+		binaryBoundary = true
+	}
 	switch r.Intn(5) {
 	case 0:
 		msin = limit - int64(n) // ends exactly at 99..9
@@ -94,6 +102,26 @@ func runC16(c *fw.Case) (o fw.Outcome) {
 	}
 	if r.Intn(6) == 0 {
 		plmn = "00" + plmn[2:]
+	}
+	if binaryBoundary {
+		p := uint(pick(r, 31, 32, 32, 32, 33, 40, 48))
+		base := new(big.Int)
+		base.SetString(plmn+strings.Repeat("0", msinLen), 10) // numeric value of the IMSI with MSIN 0
+		step := new(big.Int).Lsh(big.NewInt(1), p)
+		// first multiple of 2^p above base + a random offset inside the MSIN space
+		off := new(big.Int).Rand(r, big.NewInt(limit-int64(n)))
+		t := new(big.Int).Add(base, off)
+		t.Div(t, step).Add(t, big.NewInt(1)).Mul(t, step)
+		back := int64(0)
+		if n > 1 {
+			back = int64(r.Intn(n - 1))
+		}
+		t.Sub(t, big.NewInt(back+1)) // UE back+1 is the first one at or above the multiple
+		t.Sub(t, base)
+		if t.Sign() >= 0 && t.IsInt64() && t.Int64()+int64(n) <= limit {
+			msin = t.Int64()
+			o.Tag(fmt.Sprintf("numeric-imsi-crosses-2^%d", p))
+		}
 	}
 	imsi := plmn + fmt.Sprintf("%0*d", msinLen, msin)
 	k, op, opc := hexs(rbytes(r, 16)), hexs(rbytes(r, 16)), hexs(rbytes(r, 16))
